@@ -642,7 +642,9 @@ def execute_c05(scenario, params, streams=None):
             model.end_session()
             obs = observe.Obs(world, model)
             oracles.align_model(world, model, obs, "C05")
-            validate.validate(world, sess.pre_blocks, failure=False, reordered=obs.reordered)
+            # (inserted functions live in detached intervals: what was 'next'
+            # at deletion time cannot be reconstructed from the final layout)
+            validate.validate(world, sess.pre_blocks, failure=False, reordered=obs.reordered or bool(sess.insfn), pre_order=sess.pre_order)
         return out, world, model, False
 
     try:
@@ -1005,7 +1007,7 @@ def _module_candidates(sc):
                     continue
                 if any(l in used_labels for l in b.get("labels", []) + b.get("end_labels", [])):
                     continue
-                if mod.get("entry_point") == b["id"]:
+                if b["id"] in (mod.get("entry_point"), mod.get("dt_init"), mod.get("dt_fini")):
                     continue
                 if len(u["blocks"]) == 1:
                     continue
